@@ -128,6 +128,18 @@ Theorem C12_www_authenticate_status : forall c o realm cause,
 Proof. exact www_authenticate_status. Qed.
 Print Assumptions C12_www_authenticate_status.
 
+(** the www_authenticate handler itself produces the challenge naming the
+    configured realm and hands it to the request context (where finding C12-F1
+    loses it) *)
+Theorem C12_www_authenticate_challenge : forall m cause,
+  hd_upstream (mech_exec m cause) =
+  match m with
+  | MWWW realm => [("WWW-Authenticate"%string, ("Basic realm=" ++ effective_realm realm)%string)]
+  | _ => []
+  end.
+Proof. exact www_challenge_recorded. Qed.
+Print Assumptions C12_www_authenticate_challenge.
+
 (** ... every handled failure carries the headers the statement demands of its
     handler (Location / WWW-Authenticate naming the realm) outside finding C12-F1 ... *)
 Theorem C12_www_authenticate_has_header : forall c o m cause,
